@@ -23,7 +23,8 @@ import (
 
 type (
 	configFiles struct {
-		byPath map[string]io.Reader
+		// byPath holds the namespaces of the last valid version of every file.
+		byPath map[string][]*namespace.Namespace
 		sync.Mutex
 	}
 
@@ -49,7 +50,7 @@ func newOPLConfigWatcher(ctx context.Context, c *Config, target string) (*oplCon
 	nw := &oplConfigWatcher{
 		logger:                 c.l,
 		target:                 target,
-		files:                  configFiles{byPath: make(map[string]io.Reader)},
+		files:                  configFiles{byPath: make(map[string][]*namespace.Namespace)},
 		memoryNamespaceManager: *NewMemoryNamespaceManager(),
 	}
 
@@ -66,8 +67,7 @@ func newOPLConfigWatcher(ctx context.Context, c *Config, target string) (*oplCon
 		if err != nil {
 			return nil, err
 		}
-		nw.files.byPath[targetUrl.String()] = file
-		nw.parseFiles()
+		nw.loadFile(targetUrl.String(), file)
 		return nw, err
 	case "http", "https":
 		var file io.Reader
@@ -82,8 +82,7 @@ func newOPLConfigWatcher(ctx context.Context, c *Config, target string) (*oplCon
 			cache.SetWithTTL(target, b, int64(cap(b)), 30*time.Minute)
 			file = bytes.NewReader(b)
 		}
-		nw.files.byPath[targetUrl.String()] = file
-		nw.parseFiles()
+		nw.loadFile(targetUrl.String(), file)
 		return nw, err
 	default:
 		return nil, fmt.Errorf("unexpected url scheme: %q", targetUrl.Scheme)
@@ -95,15 +94,14 @@ func (nw *oplConfigWatcher) handleChange(e *watcherx.ChangeEvent) {
 	// waiting for the updated values
 	nw.files.Lock()
 	defer nw.files.Unlock()
-	nw.files.byPath[e.Source()] = e.Reader()
-	nw.parseFiles()
+	nw.loadFile(e.Source(), e.Reader())
 }
 
 func (nw *oplConfigWatcher) handleRemove(e *watcherx.RemoveEvent) {
 	nw.files.Lock()
 	defer nw.files.Unlock()
 	delete(nw.files.byPath, e.Source())
-	nw.parseFiles()
+	nw.publish()
 }
 
 func (nw *oplConfigWatcher) handleError(e *watcherx.ErrorEvent) {
@@ -113,30 +111,21 @@ func (nw *oplConfigWatcher) handleError(e *watcherx.ErrorEvent) {
 			nw.target)
 }
 
-// parseFiles loops through all files, parsing each and getting the namespaces.
-// It then sets the namespaces only if there were no errors.
+// loadFile parses the new content of one file. If it is valid, it replaces the
+// namespaces of that file; otherwise the last valid version of the file is
+// kept. The readers handed out by the watcher can only be read once, so the
+// content is consumed here and only the parsed namespaces are remembered.
 //
-// The caller must  hold the lock to nw.files.
-func (nw *oplConfigWatcher) parseFiles() {
-	var (
-		namespaces = make([]*namespace.Namespace, 0)
-		errs       []error
-	)
-	for _, reader := range nw.files.byPath {
-		content, err := io.ReadAll(reader)
-		if err != nil {
-			errs = append(errs, err)
-			continue
-		}
-		nn, ee := schema.Parse(string(content))
-		for _, e := range ee {
-			errs = append(errs, e)
-		}
-		for _, n := range nn {
-			n := n // alias because we want a reference
-			namespaces = append(namespaces, &n)
-		}
+// The caller must hold the lock to nw.files.
+func (nw *oplConfigWatcher) loadFile(source string, reader io.Reader) {
+	content, err := io.ReadAll(reader)
+	if err != nil {
+		nw.logger.
+			WithError(err).
+			Errorf("Failed to read OPL config file %s at target %s.", source, nw.target)
+		return
 	}
+	nn, errs := schema.Parse(string(content))
 	if len(errs) > 0 {
 		for _, err := range errs {
 			nw.logger.
@@ -145,6 +134,23 @@ func (nw *oplConfigWatcher) parseFiles() {
 					nw.target)
 		}
 		return
+	}
+	namespaces := make([]*namespace.Namespace, 0, len(nn))
+	for _, n := range nn {
+		n := n // alias because we want a reference
+		namespaces = append(namespaces, &n)
+	}
+	nw.files.byPath[source] = namespaces
+	nw.publish()
+}
+
+// publish makes the namespaces of the last valid version of all files visible.
+//
+// The caller must hold the lock to nw.files.
+func (nw *oplConfigWatcher) publish() {
+	namespaces := make([]*namespace.Namespace, 0)
+	for _, nn := range nw.files.byPath {
+		namespaces = append(namespaces, nn...)
 	}
 	nw.set(namespaces)
 }
